@@ -11,10 +11,11 @@ import DigModel.Props.C14
     `isVerifiedAcyclic` flags, which only cause a re-verification. This is the statement whose failure was
     defect F1 (restoring the wrong scope) — the proof goes through the undo actually performed
     (`rollbackProvide`), not through discarding a copy.
-  * `C06_decorate_unchanged` (= C14_rejected_decorate): a rejected Decorate changes graph holders only (orphan
-    group-parameter nodes without incoming edges); in particular it registers no decorator — defect F2.
+  * `C06_decorate_unchanged` (= C14_rejected_decorate): after a rejected Decorate the container *is* the container
+    before (`= st`): the graph nodes added while parsing its parameters are rolled back (repair of F15,
+    `parse_rollback_eq`), and it registers no decorator — defect F2.
   * `C06_no_execution`: neither executes user code (C03_passive).
-  That states equal up to verified-flags / orphan nodes behave identically for every continuation
+  That states equal up to verified-flags behave identically for every continuation
   (`C06_congr`) is checked by the metamorphic twins on the real library and by the correspondence.
 -/
 namespace Dig.C06
@@ -102,7 +103,7 @@ theorem C06_provide_unchanged (ctx : Ctx) (fn : Fn) (st : St) (i s : Nat) (o : P
 
 theorem C06_decorate_unchanged (ctx : Ctx) (fn : Fn) (st : St) (i s : Nat) (cb info : Bool)
     (h : ¬ ((apiDecorate ctx fn st i s cb info).2.v matches .ok)) :
-    GhOnly st (apiDecorate ctx fn st i s cb info).1 := C14.C14_rejected_decorate ctx fn st i s cb info h
+    (apiDecorate ctx fn st i s cb info).1 = st := C14.C14_rejected_decorate ctx fn st i s cb info h
 
 theorem C06_no_execution (ctx : Ctx) (fns : List Fn) (st : St) (i : Nat) (op : Op) (h : op.isInvoke = false) :
     (step ctx fns st i op).2.ev = [] := step_passive ctx fns st i op h
